@@ -8,7 +8,7 @@ caught=0; missed=0
 for d in seeded/*/; do
   name=$(basename "$d")
   id=${name%%-*}
-  out=$(tools/try_seeded.sh "$id" "$d/patch.diff" quick "$SEED" 2>&1 | head -1)
+  out=$(tools/try_seeded.sh "$id" "/verif/${d}patch.diff" quick "$SEED" 2>&1 | head -1)
   rc=$(echo "$out" | sed -n 's/.* rc=\([0-9]*\) .*/\1/p')
   if [ "$rc" = "1" ]; then caught=$((caught+1)); verdict=CAUGHT; else missed=$((missed+1)); verdict="MISSED(rc=$rc)"; fi
   echo "$verdict $name $out"
